@@ -88,13 +88,16 @@ class T:
         for c in kids(n):
             self._find_tracked(c)
 
-    def text(self, node):
+    def text(self, node, maxlen=100):
         rng = node.get("range", {})
         b, e = rng.get("begin", {}), rng.get("end", {})
         try:
             o1 = b.get("offset", b.get("expansionLoc", {}).get("offset"))
             o2 = e.get("offset", e.get("expansionLoc", {}).get("offset")) + e.get("tokLen", e.get("expansionLoc", {}).get("tokLen", 1))
-            return re.sub(r"\s+", " ", self.src[o1:o2])[:100]
+            piece = self.src[o1:o2]
+            if isinstance(piece, bytes):          # clang's offsets are byte offsets
+                piece = piece.decode("utf-8", "replace")
+            return re.sub(r"\s+", " ", piece)[:maxlen]
         except Exception:
             return ""
 
@@ -410,3 +413,317 @@ def translate(spec, fdecl, src, consts, U, root):
     nev = sum(1 for s in t.sites if s.startswith(("call", "store")))
     return "\n".join(out), {"sites": len(t.sites), "effect_sites": nev,
                             "reply_sites": sum(1 for s in t.sites if s.startswith("reply"))}
+
+
+# ---------------------------------------------------------------------------------------------------------------------
+# second skeleton: the receive path agent/agent.c agent_recv_message_unlocked (C03 data gate, C02 demultiplexer)
+# ---------------------------------------------------------------------------------------------------------------------
+SPEC_RECV = {
+    "lean_ns": "RecvMessage",
+    "file": "agent/agent.c",
+    "fn": "agent_recv_message_unlocked",
+    # tracked locals: name -> register.  r0 = retval (RecvStatus, stored + 2 so that RECV_ERROR = -2 becomes 0)
+    "locals": {"retval": 0, "handled": 2},
+    "enum_of_reg": {0: "RecvStatus"},
+    "offset": {0: 2},
+    # calls whose boolean result is tested in a condition and remembered in a ghost register
+    "cond_calls": {"nice_component_verify_remote_candidate": 1},
+    "bool_result_calls": {"conn_check_handle_inbound_stun"},
+    "pure": set(), "reply": set(),     # every call is an event here; the theorems are about the returned status only
+}
+
+
+def unexpect(e):
+    """G_LIKELY (x) = __builtin_expect (({ int v; if (x) v = 1; else v = 0; v; }), 1)  ->  x"""
+    e0 = strip(e)
+    if e0.get("kind") == "CallExpr":
+        c = strip(e0["inner"][0])
+        if c.get("kind") == "DeclRefExpr" and c["referencedDecl"]["name"] == "__builtin_expect":
+            a = strip(e0["inner"][1])
+            if a.get("kind") == "StmtExpr":
+                for n in walk(a):
+                    if n.get("kind") == "IfStmt":
+                        return kids(n)[0]
+            return e0["inner"][1]
+    return e
+
+
+def walk(n):
+    yield n
+    for c in kids(n):
+        yield from walk(c)
+
+
+class T2(T):
+    def __init__(self, spec, fdecl, src, consts, U, enums):
+        self.spec, self.src, self.consts, self.U = spec, src, consts, U
+        self.sites, self.by_id, self.locals = [], {}, set()
+        self.enums = enums                      # enum type -> {name: signed value}
+        self.tracked = None
+        self.msg_arg = None
+        self.bool_sites = []
+        for p in kids(fdecl):
+            if p.get("kind") == "ParmVarDecl":
+                self.locals.add(p.get("id"))
+        self.body = [c for c in kids(fdecl) if c.get("kind") == "CompoundStmt"][0]
+        self._collect_locals(self.body)
+        self.label = None
+
+    # registers ---------------------------------------------------------------------------------------------------
+    def local_reg(self, e):
+        e = strip(e)
+        if e.get("kind") == "DeclRefExpr" and e["referencedDecl"].get("id") in self.locals and \
+                e["referencedDecl"]["name"] in self.spec["locals"]:
+            return self.spec["locals"][e["referencedDecl"]["name"]]
+        return None
+
+    def reg_of(self, e):
+        return self.local_reg(e)
+
+    def mentions_reg(self, e):
+        e = unexpect(e)
+        s = strip(e)
+        if self.local_reg(s) is not None:
+            return True
+        if s.get("kind") == "CallExpr" and self.callee(s) in self.spec["cond_calls"]:
+            return True
+        return any(self.mentions_reg(c) for c in kids(s))
+
+    def const_for(self, reg, e):
+        e = strip(e)
+        if e.get("kind") == "DeclRefExpr" and e.get("referencedDecl", {}).get("kind") == "EnumConstantDecl":
+            n = e["referencedDecl"]["name"]
+            for tname, vals in self.enums.items():
+                if n in vals:
+                    return vals[n] + self.spec["offset"].get(reg, 0)
+            return None
+        v = T.enum_const(self, e)
+        return None if v is None else v + self.spec["offset"].get(reg, 0)
+
+    # expressions ---------------------------------------------------------------------------------------------------
+    def scan(self, e):
+        out = []
+        k = e.get("kind")
+        if k in ("ReturnStmt", "GotoStmt", "BreakStmt", "ContinueStmt", "ForStmt", "WhileStmt", "DoStmt", "SwitchStmt"):
+            raise self.U("control flow inside an expression")
+        after = []
+        if k == "CallExpr":
+            name = self.callee(e)
+            if name in NORETURN:
+                out.append(".abort")
+            elif name in self.spec["cond_calls"]:
+                raise self.U(f"{name} called outside a condition")
+            elif name != "__builtin_expect":
+                out.append(f"(.ev {self.site(e, 'call ' + str(name))} 0)")
+            for a in e["inner"][1:]:
+                a0 = strip(a)
+                if a0.get("kind") == "UnaryOperator" and a0.get("opcode") == "&":
+                    r = self.local_reg(a0["inner"][0])
+                    if r is not None:      # the callee may store any value of the type
+                        after.append(f"(.havoc {r} {self.site(a0, 'out-parameter of ' + str(name))})")
+        elif k in ("BinaryOperator", "CompoundAssignOperator") and e.get("opcode", "").endswith("=") and \
+                e.get("opcode") not in ("==", "!=", "<=", ">="):
+            l = strip(e["inner"][0])
+            if self.local_reg(l) is not None:
+                raise self.U("tracked local assigned inside an expression: " + self.text(e))
+            if not self.is_local_lvalue(l):
+                out.append(f"(.ev {self.site(e, 'store')} 0)")
+        elif k == "UnaryOperator" and e.get("opcode") in ("++", "--"):
+            l = strip(e["inner"][0])
+            if self.local_reg(l) is not None:
+                raise self.U("tracked local incremented")
+            if not self.is_local_lvalue(l):
+                out.append(f"(.ev {self.site(e, 'store')} 0)")
+        for c in kids(e):
+            out += self.scan(c)
+        return out + after
+
+    def truth(self, e):
+        """(events, Cond) for a tracked value used as a truth value"""
+        e0 = strip(e)
+        r = self.local_reg(e0)
+        if r is not None:
+            return [], f"(.not (.eq {r} {self.spec['offset'].get(r, 0)}))"
+        if e0.get("kind") == "CallExpr" and self.callee(e0) in self.spec["cond_calls"]:
+            reg = self.spec["cond_calls"][self.callee(e0)]
+            ev = []
+            for a in e0["inner"][1:]:
+                ev += self.scan(a)
+            st = self.site(e0, "gate " + self.callee(e0))
+            self.bool_sites.append(st)
+            return ev + [f"(.havoc {reg} {st})"], f"(.not (.eq {reg} 0))"
+        return None
+
+    def cond(self, e):
+        e = unexpect(e)
+        e0 = strip(e)
+        k = e0.get("kind")
+        if not self.mentions_reg(e0):
+            return self.scan(e0), f"(.orc {self.site(e0, 'cond')})"
+        t = self.truth(e0)
+        if t:
+            return t
+        if k == "UnaryOperator" and e0.get("opcode") == "!":
+            ev, c = self.cond(e0["inner"][0])
+            return ev, f"(.not {c})"
+        if k == "BinaryOperator" and e0.get("opcode") in ("&&", "||"):
+            ev1, c1 = self.cond(e0["inner"][0])
+            ev2, c2 = self.cond(e0["inner"][1])
+            if any(".havoc" in x for x in ev2):
+                raise self.U("gate call in the right operand of && / ||")
+            return ev1 + ev2, f"(.{'and' if e0['opcode'] == '&&' else 'or'} {c1} {c2})"
+        if k == "BinaryOperator" and e0.get("opcode") in ("==", "!="):
+            l, r = e0["inner"]
+            rl, rr = self.local_reg(l), self.local_reg(r)
+            if rl is not None and rr is None:
+                reg, other = rl, r
+            elif rr is not None and rl is None:
+                reg, other = rr, l
+            else:
+                raise self.U("comparison of two tracked values")
+            v = self.const_for(reg, other)
+            if v is None or v < 0:
+                raise self.U("tracked value compared with a non-constant: " + self.text(e0))
+            c = f"(.eq {reg} {v})"
+            return [], (c if e0["opcode"] == "==" else f"(.not {c})")
+        raise self.U("condition mixes tracked and untracked data in a way the translator does not understand: " + self.text(e0))
+
+    # statements ----------------------------------------------------------------------------------------------------
+    def assign(self, reg, rhs, node):
+        r = strip(rhs)
+        v = self.const_for(reg, r)
+        if v is not None:
+            if v < 0:
+                raise self.U("constant outside the register's range")
+            return [f"(.set {reg} {v})"]
+        ev = self.scan(r)
+        st = self.site(node, "assigned from untracked data")
+        if r.get("kind") == "CallExpr" and self.callee(r) in self.spec["bool_result_calls"]:
+            self.bool_sites.append(st)
+        return ev + [f"(.havoc {reg} {st})"]
+
+    def stmt(self, n):
+        k = n.get("kind")
+        if k == "DeclStmt":
+            parts = []
+            for d in kids(n):
+                if d.get("kind") != "VarDecl":
+                    continue
+                if d.get("name") in self.spec["locals"] and d.get("id") in self.locals and kids(d):
+                    parts += self.assign(self.spec["locals"][d["name"]], kids(d)[-1], d)
+                else:
+                    for c in kids(d):
+                        parts += self.scan(c)
+            return self.seq(parts)
+        if k == "GotoStmt":
+            if self.label is None or n.get("targetLabelDeclId") != self.label:
+                raise self.U("goto to a label other than the function's final label")
+            return ".jmp"
+        if k == "LabelStmt":
+            raise self.U("label not at the top level of the function body")
+        if k == "ReturnStmt":
+            if not kids(n):
+                return "(.ret 2)"
+            e = strip(kids(n)[0])
+            reg = self.spec["locals"].get("retval")
+            if self.local_reg(e) == reg:
+                return "(.ret 2)"
+            v = self.const_for(reg, e)
+            if v is None or v < 0:
+                raise self.U("return of something that is neither the tracked status nor a constant")
+            return self.seq([f"(.set {reg} {v})", "(.ret 2)"])
+        if k in ("ImplicitCastExpr", "ParenExpr", "CStyleCastExpr") or k in ("BinaryOperator",):
+            e = strip(n)
+            if e.get("kind") == "BinaryOperator" and e.get("opcode") == "=":
+                reg = self.local_reg(e["inner"][0])
+                if reg is not None:
+                    return self.seq(self.assign(reg, e["inner"][1], e))
+        return T.stmt(self, n)
+
+    def top(self):
+        ss = kids(self.body)
+        idx = [i for i, x in enumerate(ss) if x.get("kind") == "LabelStmt"]
+        if len(idx) > 1:
+            raise self.U("more than one label")
+        if not idx:
+            return self.stmts(ss)
+        i = idx[0]
+        self.label = ss[i].get("declId")
+        before = self.stmts(ss[:i])
+        after = self.stmts(kids(ss[i]) + ss[i + 1:])
+        return self.seq([f"(.block {before})", after])
+
+
+def enum_signed(root, tname, U, extra=()):
+    import glob, os
+    for h in list(extra) + sorted(glob.glob(os.path.join(root, "**", "*.h"), recursive=True)):
+        rel = h[len(root):]
+        if "/_build" in rel or "/build" in rel:
+            continue
+        txt = open(h, errors="replace").read()
+        m = re.search(r"typedef\s+enum\s*\{([^}]*)\}\s*" + re.escape(tname) + r"\s*;", txt)
+        if m:
+            body = re.sub(r"/\*.*?\*/", "", m.group(1), flags=re.S)
+            out, nxt = {}, 0
+            for x in body.split(","):
+                x = x.strip()
+                if not x:
+                    continue
+                if "=" in x:
+                    n, v = x.split("=")
+                    try:
+                        nxt = int(v.strip(), 0)
+                    except ValueError:
+                        raise U(f"enumerator {x} of {tname} has a non-literal value")
+                    n = n.strip()
+                else:
+                    n = x
+                out[n] = nxt
+                nxt += 1
+            return out
+    raise U(f"enum {tname} not found")
+
+
+def find_calls(n, name, out, t):
+    if n.get("kind") == "CallExpr" and t.callee(n) == name:
+        out.append(n)
+    for c in kids(n):
+        find_calls(c, name, out, t)
+    return out
+
+
+def translate_recv(spec, fdecl, src, consts, U, root):
+    import os
+    enums = {"RecvStatus": enum_signed(root, "RecvStatus", U, extra=[os.path.join(root, spec["file"])])}
+    t = T2(spec, fdecl, src, consts, U, enums)
+    prog = t.top()
+    rs = enums["RecvStatus"]
+    off = spec["offset"][0]
+    # the two length checks the demultiplexer relies on must be asked with the same padding rule
+    fast = find_calls(t.body, "stun_message_validate_buffer_length_fast", [], t)
+    full = find_calls(t.body, "stun_message_validate_buffer_length", [], t)
+    if len(fast) != 1 or len(full) != 1:
+        raise U("expected exactly one vectored and one contiguous length check")
+    norm = lambda e: re.sub(r"\s+", "", t.text(strip(e), 4000))
+    fast_pad, full_pad = norm(fast[0]["inner"][-1]), norm(full[0]["inner"][-1])
+    esc = lambda x: x.replace("\\", "\\\\").replace('"', '\\"')
+    out = [f"/- GENERATED by tools/extract_flow.py from {spec['file']} {spec['fn']} — do not edit.",
+           "   Skeleton of the receive path (see lean/Nice/Model/Flow.lean).  Registers:",
+           f"     r0 = `retval` + {off} (RecvStatus: " + ", ".join(f"{n}={v}" for n, v in rs.items()) + ")",
+           "     r1 = (ghost) result of nice_component_verify_remote_candidate for this datagram (2 = not asked)",
+           "     r2 = `handled`, the result of conn_check_handle_inbound_stun (2 = not asked)",
+           "   `goto done` = .jmp, closed by the .block that ends at the label.  Every call / non-local store is an event.",
+           "   Sites:"]
+    for i, d in enumerate(t.sites):
+        out.append(f"     {i} — {d}".replace("/-", "/ -").replace("-/", "- /"))
+    out += ["-/", "import Nice.Model.Flow", "namespace Nice.Gen." + spec["lean_ns"], "open Nice.Flow", "",
+            "def prog : Stmt :=", prog, "",
+            "/-- sites whose stored value is a gboolean (0 / 1) -/",
+            f"def boolSites : List Nat := [{', '.join(map(str, sorted(set(t.bool_sites))))}]",
+            f"def statusValues : List Nat := [{', '.join(str(v + off) for v in sorted(rs.values()))}]"]
+    for n, v in rs.items():
+        out.append(f"def {n} : Nat := {v + off}")
+    out += ["/-- the padding argument of the vectored pre-check and of the contiguous check (source text, blanks removed) -/",
+            f'def fastPadArg : String := "{esc(fast_pad)}"', f'def fullPadArg : String := "{esc(full_pad)}"',
+            "", "end Nice.Gen." + spec["lean_ns"], ""]
+    return "\n".join(out), {"sites": len(t.sites)}
